@@ -244,7 +244,8 @@ def shape_balanced(kind):
     return sh
 
 
-OPTIONAL_CHECKS = {"value_for_contract": ["undefined_only_when_nobody_defines", "own_block_shadows", "own_definition_wins", "falls_back_to_enclosing"],
+OPTIONAL_CHECKS = {"unselected_definitions_contract": ["definition_in_an_unselected_block_has_no_effect", "definition_in_the_selected_block_takes_effect"],
+                   "value_for_contract": ["undefined_only_when_nobody_defines", "own_block_shadows", "own_definition_wins", "falls_back_to_enclosing"],
                    "add_symbol_frame_contract": ["label_defined_here", "symbol_defined_here", "other_names_kept"],
                    "scope_nodes_contract": ["scope_node_emits_nothing", "scope_node_keeps_address", "pop_emits_nothing", "pop_keeps_address"],
                    "restore_scope_export_contract": ["exported_same_value", "only_exports_added", "nothing_exported", "parent_symbols_kept"],
